@@ -6,6 +6,8 @@ mod sexp;
 mod conv;
 mod ops;
 mod ops_solve;
+mod ops_reader;
+mod ops_goals;
 
 use std::io::{BufRead, Write};
 use std::panic;
